@@ -26,7 +26,7 @@ META = dict(
 
 FUNCS = ['ns_prefix_only', 'degree_roundtrip', 'design_band_roundtrip', 'two_roadms_roundtrip', 'loss_coef_roundtrip', 'delta_power_range_roundtrip',
          'nf_coef_roundtrip', 'nf_coef_yang_order_irrelevant', 'nf_fit_coef_roundtrip', 'raman_coef_roundtrip',
-         'none_empty_roundtrip', 'int_precision_dispatch', 'roadm_default_variety', 'transceiver_aliases']
+         'none_empty_roundtrip', 'int_precision_dispatch', 'roadm_default_variety', 'transceiver_aliases', 'edfa_aliases', 'mode_aliases']
 
 
 def _env():
@@ -113,6 +113,8 @@ SAMPLES = {
     'int_precision_dispatch': "int_precision_dispatch(0, 12)",
     'roadm_default_variety': "roadm_default_variety([True, False])",
     'transceiver_aliases': "transceiver_aliases(['a', 'b'], 'T')",
+    'edfa_aliases': "edfa_aliases(['a', 'b'], 'T')",
+    'mode_aliases': "mode_aliases(['a', 'b'], 'm')",
 }
 
 
